@@ -238,6 +238,7 @@ PROBES = [
     (_M, "root", "import os\n\n\ndef first():\n    return 1\n\n\nfrom al_p import *\nfrom be_p import fb\nsee('1:shared', shared)\nsee('2:fb', fb)\nsee('3:os', os)\n"),
     (_M, "root", "def one():\n    import os\n    see('1:os', os)\n    return os.sep\n\n\ndef two():\n    import os\n    see('2:os', os)\n    return os.sep\n\n\nsee('call', one() + two())\n"),
     (_M, "root", "import collections as m\nsee('1:m', m)\nimport textwrap as m\nsee('2:m', m)\n"),
+    (_M, "root", "import os.path\nimport xml.dom.minidom\nsee('1:os.sep', os.sep)\nsee('2:xml', xml)\n"),
     (_M, "root", "def user():\n    import al_p\n    from be_p import fb\n    see('1:al_p', al_p)\n    return fb\n\n\nsee('call:user', user())\nimport al_p\nfrom be_p import fa\nsee('2:al_p.fa', al_p.fa)\nsee('3:fa', fa)\n"),
     (_M, "member", "from .core import KC\nfrom .tup import *\nfrom .core import core_fn\nsee('1:KC', KC)\nsee('2:core_fn', core_fn)\nsee('3:t1', t1)\n"),
     (_M, "root", "import json\nfrom al_p import *\nimport json\nsee('1:json', json)\nsee('2:fa', fa)\n"),
